@@ -375,6 +375,33 @@ func IPv4(src, dst []byte, proto uint8, id uint16, ttl uint8, df, mf bool, fragO
 	return b
 }
 
+// IPv4Opts is IPv4 with an options field (padded to a multiple of four bytes with end-of-list octets).
+func IPv4Opts(src, dst []byte, proto uint8, id uint16, ttl uint8, df, mf bool, fragOff int, opts, payload []byte) []byte {
+	for len(opts)%4 != 0 {
+		opts = append(opts, 0)
+	}
+	if len(opts) > 40 {
+		opts = opts[:40]
+	}
+	plain := IPv4(src, dst, proto, id, ttl, df, mf, fragOff, nil)
+	b := make([]byte, 0, 20+len(opts)+len(payload))
+	b = append(b, plain...)
+	b = append(b, opts...)
+	b = append(b, payload...)
+	b[0] = 0x40 | byte((20+len(opts))/4)
+	binary.BigEndian.PutUint16(b[2:], uint16(len(b)))
+	b[10], b[11] = 0, 0
+	binary.BigEndian.PutUint16(b[10:], Fold(Sum(b[:20+len(opts)], 0)))
+	return b
+}
+
+// IPv4 options a host may legitimately meet: record route, router alert, NOPs.
+func OptRecordRoute(slots int) []byte {
+	o := []byte{7, byte(3 + 4*slots), 4}
+	return append(o, make([]byte, 4*slots)...)
+}
+func OptRouterAlert() []byte { return []byte{148, 4, 0, 0} }
+
 func IPv6(src, dst []byte, next uint8, hop uint8, payload []byte) []byte {
 	b := make([]byte, 40+len(payload))
 	b[0] = 0x60
